@@ -789,6 +789,34 @@ def sweep_programs(cat):
             val("vec", c=[val("none") if nones(k, 5) else val("some", c=[val("str", cat["strings"][k % len(cat["strings"])])]) for k in range(5)])])
         vs.append(("D1", v, len(vs) == 0))
     out.append(([d], vs))
+    # newtypes: tuple structs with exactly ONE field whose type is itself a sequence / option of sequences, with the values at
+    # which "the documented one-element array" and "the field's own value" could be confused: the empty outer vector ([[]]),
+    # None ([null]), [None], [[]], [[], []].  Added after a seeded "accept the bare inner value for single-field tuple structs"
+    # was missed (round 8): Grid(vec![]) came back as Grid(vec![vec![]]).
+    i32v = lambda k: val("int", "-" if k < 0 else "", to_bits(abs(k)))
+    V = lambda *c: val("vec", c=list(c))
+    S = lambda x: val("some", c=[x])
+    N = val("none")
+    fams = [
+        (["Vec", "Vec"], [V(), V(V()), V(V(), V()), V(V(i32v(1))), V(V(i32v(1), i32v(-2)), V())]),
+        (["Vec", "Vec", "Vec"], [V(), V(V()), V(V(V())), V(V(V(i32v(7))))]),
+        (["Opt", "Vec", "Opt"], [N, S(V()), S(V(N)), S(V(S(i32v(3)))), S(V(N, S(i32v(0)), N))]),
+        (["Opt", "Vec", "Vec"], [N, S(V()), S(V(V())), S(V(V(i32v(5))))]),
+        (["Vec", "Opt"], [V(), V(N), V(N, N), V(S(i32v(1))), V(S(i32v(1)), N)]),
+        (["Opt", "Vec"], [N, S(V()), S(V(i32v(1))), S(V(i32v(1), i32v(2)))]),
+        (["Vec"], [V(), V(i32v(1)), V(i32v(1), i32v(2))]),
+        (["Opt"], [N, S(i32v(0))]),
+    ]
+    for k, (w, vals_) in enumerate(fams):
+        d1 = {"name": "D1", "kind": "tuple", "via": "derive", "fields": [_fld("0", None, ["", "doc", "", "after"][k % 4], _ty("Int", "i32", w))]}
+        # ... and the same newtype as a member of a named struct and inside a vector of another tuple struct
+        d2 = {"name": "D2", "kind": "named", "via": "derive", "fields": [_fld("a", None, "", _ty("Ref", "D1")), _fld("value", "v", "", _ty("Ref", "D1", ["Vec"]))]}
+        vs = []
+        for v in vals_:
+            vs.append(("D1", val("struct", c=[v]), len(vs) == 0))
+        for a in range(len(vals_)):
+            vs.append(("D2", val("struct", c=[val("struct", c=[vals_[a]]), V(*[val("struct", c=[x]) for x in vals_[: a + 1]])]), False))
+        out.append(([d1, d2], vs))
     return out
 
 
